@@ -58,6 +58,43 @@ theorem apparentSize_lenPrefix (n : Nat) (hn : n < 2147483648) (s : Bytes) :
 theorem apparentSize_be32 (n : Nat) (hn : n < 2147483648) (s : Bytes) : apparentSize (be32 n ++ s) = n := by
   rw [← lenPrefix_eq_be32]; exact apparentSize_lenPrefix n hn s
 
+/-! (Kernel note: never let the kernel reduce `prologue` / `unz` on a buffer built from `lenPrefix n` or
+from byte variables — the signed reading of the prefix is arithmetic modulo 2^32 on symbolic values.  The
+lemmas below are therefore stated for a VARIABLE buffer and instantiated afterwards.) -/
+
+theorem unz_of_prologue_none (buf : Bytes) (h : prologue buf = none) :
+    unz buf = match inflate (buf.drop 4) with
+      | some (out, _) => .ok out
+      | none => .throw .system_error := by
+  unfold unz; rw [h]; rfl
+
+theorem unz_of_prologue_some (buf : Bytes) (r : Res Bytes) (h : prologue buf = some r) : unz buf = r := by
+  unfold unz; rw [h]
+
+theorem prologue_some_ok (buf p : Bytes) (h : prologue buf = some (.ok p)) :
+    p = [] ∧ ¬ (buf.length ≠ 0 ∧ buf.length < 4) ∧ apparentSize buf = 0 := by
+  unfold prologue at h
+  by_cases h1 : buf.length ≠ 0 ∧ buf.length < 4
+  · rw [if_pos h1] at h; simp at h
+  · rw [if_neg h1] at h
+    by_cases h2 : apparentSize buf = 0
+    · rw [if_pos h2] at h
+      simp only [Option.some.injEq, Res.ok.injEq] at h
+      exact ⟨h.symm, h1, h2⟩
+    · rw [if_neg h2] at h
+      by_cases h3 : apparentSize buf < 0
+      · rw [if_pos h3] at h; simp at h
+      · rw [if_neg h3] at h; simp at h
+
+theorem prologue_none_apparent (buf : Bytes) (h : prologue buf = none) : apparentSize buf ≠ 0 := by
+  unfold prologue at h
+  by_cases h1 : buf.length ≠ 0 ∧ buf.length < 4
+  · rw [if_pos h1] at h; simp at h
+  · rw [if_neg h1] at h
+    by_cases h2 : apparentSize buf = 0
+    · rw [if_pos h2] at h; simp at h
+    · exact h2
+
 theorem prologue_prefix (n : Nat) (hn : n < 2147483648) (hn0 : n ≠ 0) (s : Bytes) :
     prologue (lenPrefix n ++ s) = none := by
   have hl : ¬ ((lenPrefix n ++ s).length ≠ 0 ∧ (lenPrefix n ++ s).length < 4) := by
@@ -75,13 +112,11 @@ theorem unz_prefix (n : Nat) (hn : n < 2147483648) (hn0 : n ≠ 0) (s : Bytes) :
     unz (lenPrefix n ++ s) = match inflate s with
       | some (out, _) => .ok out
       | none => .throw .system_error := by
-  unfold unz
-  rw [prologue_prefix n hn hn0 s, drop4_lenPrefix]
-  rfl
+  rw [unz_of_prologue_none _ (prologue_prefix n hn hn0 s), drop4_lenPrefix]
 
 theorem unz_frame_nil : unz (frame []) = .ok [] := by
-  unfold unz prologue
-  rfl
+  have : prologue (frame []) = some (.ok []) := by decide
+  exact unz_of_prologue_some _ _ this
 
 /-- The Model of `zlib_uncompress` inverts the Spec framing (payloads below 2 GiB: the prefix is read as a
 signed `int32_t`). -/
@@ -105,43 +140,39 @@ theorem apparentSize_zero_iff (a b c d : UInt8) (r : Bytes) :
 
 /-- Whatever the Model of `zlib_uncompress` returns, the Spec reading of the stored column returns too. -/
 theorem unz_ok_unframe (b p : Bytes) (h : unz b = .ok p) : unframe b = some p := by
-  match b, h with
-  | [], h =>
-    have : unz [] = .ok [] := rfl
-    rw [this] at h
-    injection h with h
-    subst h; rfl
-  | [x], h => exact absurd h (by unfold unz prologue; simp)
-  | [x, y], h => exact absurd h (by unfold unz prologue; simp)
-  | [x, y, z], h => exact absurd h (by unfold unz prologue; simp)
-  | a :: b' :: c :: d :: r, h =>
-    unfold unz prologue at h
-    have hl : ¬ ((a :: b' :: c :: d :: r).length ≠ 0 ∧ (a :: b' :: c :: d :: r).length < 4) := by
-      simp only [List.length_cons]; omega
-    rw [if_neg hl] at h
-    show (if a.toNat * 16777216 + b'.toNat * 65536 + c.toNat * 256 + d.toNat = 0 then some []
-      else (inflate r).map (·.1)) = some p
-    by_cases hz : apparentSize (a :: b' :: c :: d :: r) = 0
-    · rw [if_pos hz] at h
-      have := (apparentSize_zero_iff a b' c d r).mp hz
-      rw [if_pos this]
-      injection h with h
-      rw [h]
-    · rw [if_neg hz] at h
+  cases hp : prologue b with
+  | some r =>
+    rw [unz_of_prologue_some b r hp] at h
+    subst h
+    obtain ⟨rfl, hlen, hz⟩ := prologue_some_ok b p hp
+    match b, hlen, hz with
+    | [], _, _ => rfl
+    | [x], hlen, _ => exact absurd ⟨by simp, by simp⟩ hlen
+    | [x, y], hlen, _ => exact absurd ⟨by simp, by simp⟩ hlen
+    | [x, y, z], hlen, _ => exact absurd ⟨by simp, by simp⟩ hlen
+    | a :: b' :: c :: d :: r, _, hz =>
+      show (if a.toNat * 16777216 + b'.toNat * 65536 + c.toNat * 256 + d.toNat = 0 then some []
+        else (inflate r).map (·.1)) = some []
+      rw [if_pos ((apparentSize_zero_iff a b' c d r).mp hz)]
+  | none =>
+    rw [unz_of_prologue_none b hp] at h
+    have h4 := prologue_none_length hp
+    have hz := prologue_none_apparent b hp
+    match b, h4, hz, h with
+    | a :: b' :: c :: d :: r, _, hz, h =>
+      show (if a.toNat * 16777216 + b'.toNat * 65536 + c.toNat * 256 + d.toNat = 0 then some []
+        else (inflate r).map (·.1)) = some p
       have hz' : ¬ (a.toNat * 16777216 + b'.toNat * 65536 + c.toNat * 256 + d.toNat = 0) :=
         fun e => hz ((apparentSize_zero_iff a b' c d r).mpr e)
       rw [if_neg hz']
-      by_cases hneg : apparentSize (a :: b' :: c :: d :: r) < 0
-      · rw [if_pos hneg] at h; simp at h
-      · rw [if_neg hneg] at h
-        simp only [List.drop_succ_cons, List.drop_zero] at h
-        cases hi : inflate r with
-        | none => rw [hi] at h; simp at h
-        | some q =>
-          obtain ⟨out, rest⟩ := q
-          rw [hi] at h
-          simp only [Res.ok.injEq] at h
-          simp [h]
+      simp only [List.drop_succ_cons, List.drop_zero] at h
+      cases hi : inflate r with
+      | none => rw [hi] at h; simp at h
+      | some q =>
+        obtain ⟨out, rest⟩ := q
+        rw [hi] at h
+        simp only [Res.ok.injEq] at h
+        simp [h]
 
 /-! ### an inflate oracle built from the independent Lean inflate -/
 
